@@ -90,7 +90,7 @@ class Run:
             if i < self.start:
                 continue
             for p in probes.get(('torn', i), ()):
-                ev.append({'ev': 'ProbeTorn', 'n': p['n'], 'at': i, 'cut': p['cut']})
+                ev.append(dict({'ev': 'ProbeTorn', 'n': p['n'], 'at': i, 'cut': p['cut']}, **({'ro': p['ro']} if 'ro' in p else {})))
             op = e['op']
             if op == 'mark':
                 if e['label'] == 'call':
@@ -140,7 +140,7 @@ class Run:
             else:
                 ev.append({'ev': 'Side', 'what': '%s:%s' % (op, e.get('file'))})
             for p in probes.get(('after', i), ()):
-                ev.append({'ev': 'Probe', 'n': p['n'], 'at': i})
+                ev.append(dict({'ev': 'Probe', 'n': p['n'], 'at': i}, **({'ro': p['ro']} if 'ro' in p else {})))
             for p in probes.get(('pack', i), ()):
                 ev.append({'ev': 'ProbePack', 'n': p['n'], 'at': i, 'after_op': p['after_op'], 'window': p['window']})
             for p in probes.get(('index', i), ()):
@@ -185,11 +185,20 @@ class Run:
             k = ks[-1]
             rp2 = sd.StorageReplayer('file', dict(self.c, Cls=self.rp.cls), imgdir, {'oid_stride': self.rp.stride})
             rp2.st = st
-            mm = rp2.compare(self.commits[k][1], hist=self.commits[k][0])
+
+            def table(k):
+                obs = self.commits[k][1]
+                if read_only:
+                    # iterator(start) / iterator(None, stop) position themselves with heuristics over the END of the file;
+                    # on a file that ends in an incomplete transaction they are not judged (DESIGN 13.4) - the whole
+                    # iterator, every load and the undo log are
+                    obs = {k_: v for k_, v in sd.norm(obs).items() if k_ not in ('itf', 'itt')}
+                return obs
+            mm = rp2.compare(table(k), hist=self.commits[k][0])
             if mm and len(ks) > 1:
                 for k in ks[:-1]:
                     rp2.st = st
-                    mm = rp2.compare(self.commits[k][1], hist=self.commits[k][0])
+                    mm = rp2.compare(table(k), hist=self.commits[k][0])
                     if not mm:
                         break
             if mm:
@@ -226,9 +235,16 @@ class Run:
                 snap = files
             shutil.rmtree(img, ignore_errors=True)
             faultfs.write_image({k: v for k, v in snap.items() if k == DATA or k.endswith('.index')}, img)
+            ro = None
+            if nimg % 3 == 0:
+                # a reader opening the same bytes read-only (the writer may still be alive): same committed prefix
+                ro, rodetail = self.recovered(img, read_only=True)
+                if not ro:
+                    details.append({'at': i, 'cut': cut, 'kind': kind + '/read-only', 'detail': rodetail,
+                                    'op': {k: (v if k != 'data' else len(v)) for k, v in self.log[i].items()}})
             n, detail = self.recovered(img)
             nimg += 1
-            probes.setdefault((kind, i), []).append({'n': n, 'cut': cut})
+            probes.setdefault((kind, i), []).append(dict({'n': n, 'cut': cut}, **({'ro': ro} if ro is not None else {})))
             if not n:
                 details.append({'at': i, 'cut': cut, 'kind': kind, 'detail': detail,
                                 'op': {k: (v if k != 'data' else len(v)) for k, v in self.log[i].items()}})
